@@ -18,6 +18,7 @@
    Identifiers: proposal fact hashes and manifest hashes are opaque N; heights are Z; a processor gets the
    serial number of its creation (makenew success) as pid. *)
 From Coq Require Import ZArith NArith List Bool.
+From MV Require Gen.C11.
 Import ListNotations.
 Open Scope Z_scope.
 
@@ -66,7 +67,7 @@ Inductive event := EvSave (e : saveev) | EvCancel (p : N).   (* EvCancel: Propos
 
 Record st := mkSt { cur : option proc; prev_saved : Z; next_pid : N }.
 
-Definition init : st := mkSt None (-1) 0.   (* previousSaved: base.NilHeight = -1 *)
+Definition init : st := mkSt None Gen.C11.nil_height 0.   (* previousSaved: base.NilHeight (regenerated from base/point.go) *)
 
 Inductive op :=
 | OProcess (fact : N)
